@@ -21,7 +21,10 @@ else:
     assert not getattr(self, '§', None), '§'
 uri = '§' % (self.dbName, auth)
 if self.host:
-    uri += self.host
+    if '§' in self.host and (not self.host.startswith('§')):
+        uri += '§' % self.host
+    else:
+        uri += self.host
     if self.port:
         uri += '§' % self.port
 uri += '§'
@@ -111,8 +114,8 @@ def _class_attr(cls, name):
 def extract(repo):
     dbc = parse(repo, 'sqlobject/dbconnection.py')
     g = _expect(find_func(find_class(dbc, 'DBConnection'), 'uri'), GENERIC_SKELETON, 'DBConnection.uri')
-    (a_user, e1, e2, user_safe, pw_sep, pw_safe, auth_end, a_pw, _msg, scheme_fmt, port_fmt, path_sep,
-     db_strip, db_safe) = g
+    (a_user, e1, e2, user_safe, pw_sep, pw_safe, auth_end, a_pw, _msg, scheme_fmt, br_test, br_skip, br_fmt,
+     port_fmt, path_sep, db_strip, db_safe) = g
     if (a_user, e1, e2, a_pw) != ('user', '', '', 'password'):
         raise ExtractError('DBConnection.uri reads other attributes / defaults: %r' % ((a_user, e1, e2, a_pw),))
     sp = _fmt(scheme_fmt, '%s', 'DBConnection.uri')
@@ -121,6 +124,9 @@ def extract(repo):
     pp = _fmt(port_fmt, '%d', 'DBConnection.uri')
     if len(pp) != 2 or pp[1] != '':
         raise ExtractError('port format is not "<lit>%%d": %r' % port_fmt)
+    bp = _fmt(br_fmt, '%s', 'DBConnection.uri')
+    if len(bp) != 2 or len(br_test) != 1:
+        raise ExtractError('host bracketing is not "<lit>%%s<lit>" guarded by a one-character test: %r %r' % (br_fmt, br_test))
     if len(db_strip) != 1:
         raise ExtractError('db.startswith(%r) does not match db[1:]' % db_strip)
 
@@ -161,6 +167,10 @@ def extract(repo):
     d('passwordSep', pw_sep, 'separator between user and password')
     d('authEnd', auth_end, 'terminator of the userinfo part')
     d('schemeSep', sp[1], '`%r %% (self.dbName, auth)`: the literal between the two arguments' % scheme_fmt)
+    d('hostBracketTest', br_test, '`%r in self.host`: the host is written in brackets' % br_test)
+    d('hostBracketSkip', br_skip, '`and not self.host.startswith(%r)`' % br_skip)
+    d('hostBracketOpen', bp[0], '`%r %% self.host`: the literal before the host' % br_fmt)
+    d('hostBracketClose', bp[1], 'the literal after the host')
     d('portSep', pp[0], '`%r %% self.port`: the literal before the number' % port_fmt)
     d('pathSep', path_sep, '`uri += %r`' % path_sep)
     d('dbStrip', db_strip, '`db.startswith(%r)` then `db = db[1:]`' % db_strip)
